@@ -29,6 +29,10 @@ PROPS = [
                                "C13_same_document_toml", "C13_codec_user_option_wins", "C13_same_document_partial",
                                "C13_same_document_full_refuted", "C13_cache_names_injective", "C13_method_names_separate"],
      ["K2", "K11", "K13", "K13C"]),
+    ("props/C13_decode.vo", ["C13_format_dialects_leave_namedtuple_mode", "C13_merge_namedtuple_mode", "C13_decode_keys_and_nt_mode",
+                             "C13_same_decode_plan_partial", "C13_same_decode_plan_full_refuted", "C13_format_no_copy_table",
+                             "C13_no_copy_user_wins", "C13_no_copy_format_default"], ["K2", "K13", "K13C"]),
+    ("props/C13_union.vo", ["C13_union4_partial", "C13_union4_total", "C13_union4_refuted"], []),
 ]
 
 BOOL_OPTS = ("omit_none", "omit_default", "serialize_by_alias", "namedtuple_as_dict")
@@ -917,6 +921,133 @@ def union_part(ctx: vlib.Ctx):
             ctx.not_shown("correspondence " + name, f"{[descr[i] for i in bad[:4]]}")
 
 
+UNION4_SRC = r'''
+from dataclasses import dataclass, field
+from typing import Optional, Union
+from mashumaro import DataClassDictMixin
+from mashumaro.config import (BaseConfig, ADD_DIALECT_SUPPORT, TO_DICT_ADD_OMIT_NONE_FLAG, TO_DICT_ADD_BY_ALIAS_FLAG,
+                              ADD_SERIALIZATION_CONTEXT)
+from mashumaro.dialect import Dialect
+
+
+class Tag:
+    pass
+
+
+TAG0 = {Tag: {"serialize": (lambda v: 0), "deserialize": (lambda v: Tag())}}
+OPTS = {"on": TO_DICT_ADD_OMIT_NONE_FLAG, "ba": TO_DICT_ADD_BY_ALIAS_FLAG, "dl": ADD_DIALECT_SUPPORT, "cx": ADD_SERIALIZATION_CONTEXT}
+
+
+class D(Dialect):
+    serialization_strategy = {Tag: {"serialize": (lambda v: 1), "deserialize": (lambda v: Tag())}}
+
+
+def cfg(flags):
+    return type("Config", (BaseConfig,), {"serialization_strategy": dict(TAG0), "code_generation_options": [OPTS[f] for f in flags]})
+
+
+def post_cx(self, d, context=None):
+    d["ctx"] = context is not None
+    return d
+
+
+def post_plain(self, d):
+    d["ctx"] = False
+    return d
+
+
+MEMBERS = []
+for _i, _fl in enumerate(MEMBER_FLAGS):
+    _ns = {"__annotations__": {"t": Tag, "n": Optional[int], "a": int, f"m{_i}": int}, "t": field(default_factory=Tag), "n": None,
+           "a": field(default=1, metadata={"alias": "al"}), f"m{_i}": _i, "Config": cfg(_fl), "__module__": __name__,
+           "__post_serialize__": post_cx if "cx" in _fl else post_plain}
+    MEMBERS.append(dataclass(type(f"M{_i}", (DataClassDictMixin,), _ns)))
+for _m in MEMBERS:
+    globals()[_m.__name__] = _m
+
+
+@dataclass
+class Outer(DataClassDictMixin):
+    u: Union[tuple(MEMBERS)]
+    Config = cfg(OWNER_FLAGS)
+'''
+
+FLAG_NAMES = ("on", "ba", "dl", "cx")
+
+
+def union4_run(owner: list, members: list, actual: int):
+    """-> the keyword flags that reached the member instance: dict on/ba/dl/cx -> bool, or {'exc': name}"""
+    mod = types.ModuleType(f"c13_union4_{id(members)}")
+    sys.modules[mod.__name__] = mod
+    ns = mod.__dict__
+    ns.update({"MEMBER_FLAGS": members, "OWNER_FLAGS": owner})
+    try:
+        exec(UNION4_SRC, ns)
+        inst = ns["Outer"](ns["MEMBERS"][actual]())
+        kw = {}
+        if "on" in owner:
+            kw["omit_none"] = True
+        if "ba" in owner:
+            kw["by_alias"] = True
+        if "dl" in owner:
+            kw["dialect"] = ns["D"]
+        if "cx" in owner:
+            kw["context"] = object()
+        try:
+            u = inst.to_dict(**kw)["u"]
+        except Exception as e:  # noqa: BLE001
+            return {"exc": type(e).__name__}
+        if f"m{actual}" not in u:
+            return {"exc": "wrong-member-packer"}
+        return {"on": "n" not in u, "ba": "al" in u, "dl": u.get("t") == 1, "cx": bool(u.get("ctx"))}
+    finally:
+        sys.modules.pop(mod.__name__, None)
+
+
+def union4_part(ctx: vlib.Ctx):
+    """Unions of 2-3 dataclass members with arbitrary keyword-flag sets: which of omit_none / by_alias / dialect / context
+    reaches the instance.  Model DialectUnion.union_forward4 vs /repo, and the property's demand (flags of owner AND of the
+    instance's own class) as the oracle (known finding union-member-flags)."""
+    r = ctx.rng
+    coq_fl = lambda fl: "(fl " + " ".join("true" if f in fl else "false" for f in FLAG_NAMES) + ")"  # noqa: E731
+    cases, descr = [], []
+    n = ctx.budget(40, 260)
+    for i in range(n):
+        k = r.choice([2, 3, 3])
+        rnd = lambda: [f for f in FLAG_NAMES if r.random() < 0.5]  # noqa: E731
+        owner = list(FLAG_NAMES) if r.random() < 0.5 else rnd()
+        members = [rnd() for _ in range(k)]
+        if i % 4 == 0:                          # all members alike: the partial theorem's domain
+            members = [list(members[0]) for _ in range(k)]
+        actual = r.randrange(k)
+        got = union4_run(owner, members, actual)
+        ctx.count(("union4", tuple(owner), tuple(map(tuple, members)), actual))
+        ctx.hist("union4_members", str(k))
+        exp = {f: (f in owner and f in members[actual]) for f in FLAG_NAMES}
+        e = "None" if "exc" in got else "(Some " + coq_fl([f for f in FLAG_NAMES if got[f]]) + ")"
+        cases.append(f"({coq_fl(owner)}, [" + "; ".join(coq_fl(m) for m in members) + f"], {coq_fl(members[actual])}, {e})")
+        descr.append((owner, members, actual, got))
+        if got != exp:
+            first = next((j for j, m in enumerate(members) if set(owner) & set(m) <= set(members[actual])), None)
+            narrow = ("exc" not in got and first is not None and first != actual
+                      and set(members[first]) != set(members[actual]))
+            ctx.fail(f"Outer(u: Union[members with flags {members}]) with flags {owner} holding member {actual}: the instance receives "
+                     f"{got}, its own class and the owner enable {exp}",
+                     {"entry": "union4", "source": UNION4_SRC, "owner": owner, "members": members, "actual": actual,
+                      "observed": got, "expected": exp},
+                     {"kind": "union-member-flags"} if narrow else {"kind": "union-flag-forwarding"})
+    bad, log = vlib.coq_bad_idx("c13_union4", "OptProj DialectUnion", "", "", cases, "union4_case_ok", "union4_case",
+                                needs=["theories/DialectUnion.vo"])
+    name = "union_forward4-model-vs-pack_union"
+    if bad is None:
+        ctx.correspondence(name, len(cases), -1, log)
+        ctx.not_shown("correspondence " + name, log)
+    else:
+        ctx.correspondence(name, len(cases), len(bad), str([descr[i] for i in bad[:3]]))
+        if bad:
+            ctx.not_shown("correspondence " + name, str([descr[i] for i in bad[:3]]))
+
+
 # ---------------------------------------------------------------------------
 # run / replay
 # ---------------------------------------------------------------------------
@@ -929,7 +1060,10 @@ def run(ctx: vlib.Ctx):
         "two-directional strategies) x random interleavings of class definitions and to_*/from_* calls with dialects from "
         "{None, D1..Dk}; distinct = (history, class, direction, dialect). documents: random dataclass shapes x Config options x "
         "dialects x user strategy maps x 6 formats against the Coq document model; codecs: 6 formats x all 2^6 option settings x "
-        "shapes x values; distinct = (format, option vector, shape, value). merge: random option namespaces / strategy maps.")
+        "shapes x values; distinct = (format, option vector, shape, value). merge: random option namespaces / strategy maps. "
+        "decode side: deserializer choice on random (format, user map, type); named-tuple mode and no_copy_collections exhaustively "
+        "over format x user dialect x Config.dialect x Config, resolution and end-to-end behaviour of the real Encoder and Decoder. "
+        "unions: 2-3 members with random keyword-flag sets (omit_none, by_alias, dialect, context).")
     for target, names, kernels in PROPS:      # one file per theorem family: a broken proof marks only its own family
         ctx.theorems(target, names, kernels=kernels)
     ctx.trusted += [
@@ -939,7 +1073,11 @@ def run(ctx: vlib.Ctx):
         "DialectMerge.merge_strategies: hand model of the two strategy loops of Dialect.merge; compared with Dialect.merge on every run",
         "DialectDoc: document model = OptProj.to_dict_model (C08) + codec_strategies/choice (hand model of the first-hit strategy lookup "
         "at the default-dialect level); compared with the mapping every real Encoder hands to its format library on every run",
-        "DialectTwin.call_effective / union_forward: hand models of keyword-default forwarding and of the union branch order",
+        "DialectTwin.call_effective / union_forward, DialectUnion.union_forward4: hand models of keyword-default forwarding and of the "
+        "union branch order (try members in order, a branch fails only on an unknown keyword); compared with real unions on every run",
+        "DialectDecode: decode plan = key read (alias or name), deserializer in force (first-hit lookup over codec_strategies), "
+        "named-tuple mode and no_copy_collections at the default-dialect level; compared with the real builder's resolution and with "
+        "the behaviour of the real Encoders/Decoders on every run",
         "tools/kernels/k13*.py: AST extraction (class Dialect attributes, merge key tuple, option read sites, keyword defaults, "
         "unpack flags and flag call sites, codec plans, format dialect tables, cache name templates); K13C's tables are compared "
         "with the running classes on every run",
@@ -954,6 +1092,8 @@ def run(ctx: vlib.Ctx):
         "C13_same_document_partial: documents are equal as Python mappings when no field is left to a format-native entry "
         "(native_free); at format-native types the formats differ by construction (C13_same_document_full_refuted) and meet only "
         "after the format library renders the value -- that part is decided by the codec sweep (oracle), not by proof",
+        "C13_same_decode_plan_partial: likewise for decoding (native_free_de); at format-native types the decoders differ by "
+        "construction (C13_same_decode_plan_full_refuted: MessagePack takes bytes as they come)",
     ]
     k2_validation(ctx)
     strategy_corr(ctx)
@@ -961,6 +1101,7 @@ def run(ctx: vlib.Ctx):
     d14_probe(ctx)
     first_call_probes(ctx)
     union_part(ctx)
+    union4_part(ctx)
     DOC.run_all(ctx)
     CD.codec_part(ctx)
     if ctx.tier == "thorough":
@@ -1034,8 +1175,18 @@ def replay(rep: dict) -> int:
             return 1
         print("not reproduced")
         return 0
+    if entry == "union4":
+        got = union4_run(rep["owner"], rep["members"], rep["actual"])
+        print("observed", got, "expected", rep["expected"])
+        if got != rep["expected"]:
+            print("REPRODUCED")
+            return 1
+        print("not reproduced")
+        return 0
     if entry == "codec":
         return CD.replay(rep)
+    if entry == "ntmode":
+        return DOC.ntmode_replay(rep)
     if entry == "merge-mutation":
         print("see correspondence log; not replayable stand-alone")
         return 2
